@@ -303,3 +303,18 @@ V("c18-likelihood-sign", "C18", "violation", "C18.R4", edits=[(GPF1, "self.model
 V("c18-converged-filter-from-prediction", "C18", "violation", "C18.R4", edits=[(ADF, "            est_x=self.est_x,\n            est_p=self.est_p,\n            dynamics=self.dynamics,", "            est_x=self.pred_x,\n            est_p=self.est_p,\n            dynamics=self.dynamics,")])
 V("c18-n-normalise-twice", "C18", "pass", edits=[(ADF, "        self.model_weights = self.model_weights / np_sum(self.model_weights)\n        self._compileUpdateStep(observations)", "        self.model_weights = self.model_weights / np_sum(self.model_weights)\n        self.model_weights = self.model_weights / np_sum(self.model_weights)\n        self._compileUpdateStep(observations)")])
 V("c18-n-inplace-division", "C18", "pass", edits=[(ADF, "        self.model_weights = self.model_weights / np_sum(self.model_weights)\n        self._compileUpdateStep(observations)", "        self.model_weights /= np_sum(self.model_weights)\n        self._compileUpdateStep(observations)")])
+
+# ------------------------------------------------------------------------------------ C15
+FTF = "dynamics/integration_events/finite_thrust.py"
+CLF = "dynamics/celestial.py"
+V("c15-revert-F13-twobody-thrust", "C15", "violation", "C15.R3", revert="43d5466")
+V("c15-rearm-inclusive-end", "C15", "violation", "C15.R2", edits=[(CLF, "and event.start_time < initial_time < event.end_time", "and event.start_time < initial_time <= event.end_time")])
+V("c15-rearm-any-event", "C15", "violation", "C15.R2", edits=[(CLF, "                    isinstance(event, ScheduledFiniteThrust)\n                    and event.start_time", "                    True\n                    and event.start_time")])
+V("c15-thrust-not-cleared", "C15", "violation", "C15.R2", edits=[(CLF, "        events = []\n        self.finite_thrust = None\n", "        events = []\n")])
+V("c15-callback-never-ends", "C15", "violation", "C15.R2", edits=[(FTF, "        if fpe_equals(self.end_time - time, 0.0):\n            EventStack.pushEvent(EventRecord(f\"Finite thrust ended at {time}\", self.agent_id))\n            return None\n", "        if fpe_equals(self.end_time - time, 0.0):\n            EventStack.pushEvent(EventRecord(f\"Finite thrust ended at {time}\", self.agent_id))\n            return self.thrust_func\n")])
+V("c15-prune-keeps-ended-burn", "C15", "violation", "C15.R2", edits=[(AB, "                if not self._time < itr_event.end_time or fpe_equals(", "                if not self._time <= itr_event.end_time or not fpe_equals(")])
+V("c15-restart-from-first-column", "C15", "violation", "C15.R2", edits=[(CLF, "            initial_state = solution.y[::, -1].reshape(state_shape)", "            initial_state = solution.y[::, 0].reshape(state_shape)")])
+V("c15-burn-end-from-start", "C15", "violation", "C15.R2", edits=[("data/events/finite_burn.py", "        end_jd = JulianDate(self.end_time_jd)", "        end_jd = JulianDate(self.start_time_jd)")])
+V("c15-thrust-frame-registry-swapped", "C15", "violation", "C15.R2", edits=[("data/events/base.py", "        ECI: eciBurn,\n        NTW: ntwBurn,", "        ECI: ntwBurn,\n        NTW: eciBurn,")])
+V("c15-sp-thrust-velocity-slots", "C15", "violation", "C15.R3", edits=[("dynamics/special_perturbations.py", "                a_perturbations += self.finite_thrust(concatenate((r_eci, v_eci)))[:3]", "                a_perturbations += self.finite_thrust(concatenate((r_eci, v_eci)))[3:]")])
+V("c15-n-end-selects-value", "C15", "pass", edits=[(FTF, "        if fpe_equals(_ival, 0.0) or fpe_equals(_fval, 0.0):\n            return 0.0\n        return _ival", "        if fpe_equals(_ival, 0.0) or fpe_equals(_fval, 0.0):\n            return 0.0\n        return _ival if time < self.start_time else _fval")])
